@@ -17,6 +17,18 @@ import Driver.Util
         annots : "_" | ';'-separated <ruleid>:<loc>:<againstloc>:<hexmessage>
                  loc : "-" | <fileindex>/<sourcepath>/<startLine>/<startCol>/<endLine>/<endCol>  (0-based)
         -> ok <fa>;<fa>;...  with fa = <hexpath|~>:<sl>:<sc>:<el>:<ec>:<type>:<hexmessage>  |  err <class>
+
+    ycheck <ver> <l|b> <hexModuleDir> <wsSection> <modSection> <exclude-imports 0|1>
+           <files> <againstFiles> <annots>
+        section : "_" (absent / empty) | use '|' except '|' ignore '|' ignoreOnly '|' <hex enum_zero_value_suffix>
+                  '|' <hex service_suffix> '|' six 0/1 digits: rpc_allow_same_request_response,
+                  rpc_allow_google_protobuf_empty_requests, …_responses, allow_/disallow_comment_ignores,
+                  ignore_unstable_packages, disable_builtin
+        -> err config                                   (reading the buf.yaml fails)
+         | cfg <eff> top <eff|none> rep ok <fa>;…       (module config, top-level config, report)
+         | cfg <eff> top <eff|none> rep err <class>
+        eff : d=<disabled> u=<use> x=<except> g=<ignore> o=<ignoreOnly sorted by key> f=<aci><iup><db><same><ereq><eresp>
+              z=<hex suffix> s=<hex suffix>
 -/
 namespace Driver.C06
 open BufModel.Rules BufModel.Path BufGen.RuleTables Driver
@@ -110,6 +122,44 @@ def showFA (fa : FileAnnot) : String :=
   ":".intercalate [p, toString fa.startLine, toString fa.startCol, toString fa.endLine,
     toString fa.endCol, fa.type, enc fa.message]
 
+def parseSection (s : String) : Option YSection :=
+  if s = "_" then some {} else
+  match s.splitOn "|" with
+  | [use, exc, ign, io, ezs, ss, bits] => do
+      let use ← parseList use
+      let exc ← parseList exc
+      let ign ← parseList ign
+      let io ← parseIgnoreOnly io
+      let ezs ← hexDecode ezs
+      let ss ← hexDecode ss
+      match ← bits.toList.mapM (fun ch => parseBool ch.toString) with
+      | [same, ereq, eresp, cf, iup, db] =>
+        pure { use := use, except := exc, ignore := ign.map s2l, ignoreOnly := io,
+               enumZeroValueSuffix := s2l ezs, serviceSuffix := s2l ss,
+               rpcAllowSameRequestResponse := same, rpcAllowGoogleProtobufEmptyRequests := ereq,
+               rpcAllowGoogleProtobufEmptyResponses := eresp, commentFlag := cf,
+               ignoreUnstablePackages := iup, disableBuiltin := db }
+      | _ => none
+  | _ => none
+
+def showList (l : List String) : String :=
+  if l.isEmpty then "_" else ",".intercalate (l.map enc)
+
+def showIgnoreOnly (io : List (Id × List Str)) : String :=
+  if io.isEmpty then "_" else
+  ";".intercalate ((sortS (fun a b => decide (a.1 < b.1)) io).map fun e => enc e.1 ++ "=" ++ showList (e.2.map l2s))
+
+def b01 (b : Bool) : String := if b then "1" else "0"
+
+def showEff (e : EffConfig) : String :=
+  " ".intercalate [
+    "d=" ++ b01 e.disabled, "u=" ++ showList e.check.use, "x=" ++ showList e.check.except,
+    "g=" ++ showList (e.check.ignore.map l2s), "o=" ++ showIgnoreOnly e.check.ignoreOnly,
+    "f=" ++ b01 e.allowCommentIgnores ++ b01 e.ignoreUnstablePackages ++ b01 e.check.disableBuiltin ++
+      b01 e.rpcAllowSameRequestResponse ++ b01 e.rpcAllowGoogleProtobufEmptyRequests ++
+      b01 e.rpcAllowGoogleProtobufEmptyResponses,
+    "z=" ++ enc (l2s e.enumZeroValueSuffix), "s=" ++ enc (l2s e.serviceSuffix)]
+
 def handle : List String → String
   | ["rules", ver, ty, val, db, use, exc, ign, io] =>
     match parseVer ver, parseType ty, parseBool val, parseCfg db use exc ign io with
@@ -127,6 +177,22 @@ def handle : List String → String
        | .ok fas => "ok " ++ ";".intercalate (fas.map showFA)
        | .error e => "err " ++ e.tag)
     | _, _, _, _, _, _, _, _ => "bad-op"
+  | ["ycheck", ver, ty, dir, ws, md, exi, files, afiles, annots] =>
+    match parseVer ver, parseType ty, hexDecode dir, parseSection ws, parseSection md, parseBool exi,
+          parseFiles files, parseFiles afiles, parseAnnots annots with
+    | some v, some lint, some dir, some ws, some md, some exi, some fs, some afs, some as =>
+      let img : Image := { files := fs, againstFiles := afs, annots := as }
+      (match readYaml lint (v == .v2) (s2l dir) ws md with
+       | .error e => "err " ++ e.tag
+       | .ok (eff, top) =>
+         let topS := match top with
+           | none => "none"
+           | some t => showEff t
+         let rep := match runEff (rulesOf v) lint eff exi img with
+           | .ok fas => "ok " ++ ";".intercalate (fas.map showFA)
+           | .error e => "err " ++ e.tag
+         "cfg " ++ showEff eff ++ " top " ++ topS ++ " rep " ++ rep)
+    | _, _, _, _, _, _, _, _, _ => "bad-op"
   | _ => "bad-op"
 
 def run : IO Unit := runLines handle
